@@ -281,7 +281,7 @@ pub fn run(ctx: &Ctx) -> (Report, String) {
     if ctx.is_main() {
         let m = ctx.scale_pct;
         rep.require("headers_matched", if thorough { 40_000_000 } else { 3_000_000 } * m / 100);
-        for k in ["sweep:sor-custom8", "sweep:ptype-lowbits", "sweep:opptype-bits", "sweep:cpfmt", "sweep:par", "sweep:cpcfc-etr", "sweep:uui-sss", "sweep:layers", "sweep:rps", "sweep:pb", "inheritance_pairs", "marker_flips_rejected", "decoded_picture_header_checked", "decoded_picture_header_checked_in_history", "sweep:pei-ladder", "gob_probes_ok", "header_chains_completed", "chain:ufep0-after-baseline-with-modes", "chain:ufep0-after-ufep0-with-modes", "chain:ufep0-at-depth-3", "decoded_without_restated_format", "decoded_without_restated_format_twice_in_a_row"] {
+        for k in ["sweep:sor-custom8", "sweep:ptype-lowbits", "sweep:opptype-bits", "sweep:cpfmt", "sweep:par", "sweep:cpcfc-etr", "sweep:uui-sss", "sweep:layers", "sweep:rps", "sweep:pb", "inheritance_pairs", "marker_flips_rejected", "decoded_picture_header_checked", "decoded_picture_header_checked_in_history", "sweep:pei-ladder", "gob_probes_ok", "late_delivery_headers_matched", "header_chains_completed", "chain:ufep0-after-baseline-with-modes", "chain:ufep0-after-ufep0-with-modes", "chain:ufep0-at-depth-3", "decoded_without_restated_format", "decoded_without_restated_format_twice_in_a_row"] {
             rep.require(k, if k == "sweep:pei-ladder" { 20 } else { 40 });
         }
         {
@@ -697,6 +697,80 @@ fn shard(ctx: &Ctx, s: usize, n_random: u64, thorough: bool, rep: &mut Report) {
                             rep.count("marker_flips_rejected");
                             rep.count(&format!("marker:{}", name));
                             rep.distinct.insert(fnv64(&b));
+                        }
+                    }
+                }
+            }
+        }
+    }
+    // ---- late delivery: the header's bytes arrive in two instalments; the call on the first instalment fails for
+    // lack of data and, repeated after the rest has been appended to the same source, reports the header exactly ----
+    if s == 60 || s == 61 {
+        set("late delivery");
+        for i in 0..ctx.n(150, 3000) {
+            let sorenson = i % 2 == 0;
+            let mut w = BitWriter::new();
+            let exp_view;
+            if sorenson {
+                let mut h = base_sor(&mut rng);
+                h.size = if rng.chance(1, 2) { SorSize::Custom16(1 + rng.below(65535) as u16, 1 + rng.below(65535) as u16) } else { SorSize::Custom8(1 + rng.below(255) as u16, 1 + rng.below(255) as u16) };
+                h.pei = (0..*rng.pick(&[0usize, 1, 7, 8, 9, 16])).map(|_| rng.byte()).collect();
+                h.encode(&mut w);
+                exp_view = h.view();
+            } else {
+                let plus = rng.chance(2, 3);
+                let mut h = random_std(&mut rng, plus);
+                h.pei = (0..*rng.pick(&[0usize, 1, 7, 8, 9])).map(|_| rng.byte()).collect();
+                h.encode(&mut w, false, &Inherited::default());
+                exp_view = h.view(false, &Inherited::default());
+            }
+            let (bytes, nbits) = finish(w);
+            let hdr_bytes = (nbits + 7) / 8;
+            for cut in 1..hdr_bytes {
+                rep.evaluations += 1;
+                let r = catch(|| {
+                    let (src, data, _) = sut::CountRead::new(&bytes[..cut]);
+                    let mut rd = H263Reader::from_source(src.with_chunk(1 + (cut % 3)));
+                    let first = decode_picture(&mut rd, sut::options(sorenson, false), None);
+                    let first_shape = match &first {
+                        Ok(Some(_)) => "accepted".to_string(),
+                        Ok(None) => "none".to_string(),
+                        Err(e) => sut::err_kind(e),
+                    };
+                    data.borrow_mut().extend_from_slice(&bytes[cut..]);
+                    let second = decode_picture(&mut rd, sut::options(sorenson, false), None);
+                    let bits = rd.verif_position().0;
+                    (first_shape, second.map(|p| p.map(|p| view_of(&p))).map_err(|e| sut::err_kind(&e)), bits)
+                });
+                match r {
+                    Err(p) => {
+                        rep.violation(format!("panic@{}", p.loc), format!("late delivery panicked: {}", p.msg), coords());
+                        break;
+                    }
+                    Ok((first, second, bits)) => {
+                        // a cut that leaves the header's last bits (inside the last byte) complete may succeed at once
+                        let complete = cut * 8 >= nbits;
+                        if first == "accepted" && !complete {
+                            rep.violation("late-delivery/incomplete-header-accepted", format!("the first {} of {} header bytes alone were accepted as a header: {}", cut, hdr_bytes, hex(&bytes[..hdr_bytes])), coords());
+                            break;
+                        }
+                        match second {
+                            Ok(Some(v)) if first != "accepted" => {
+                                let d = exp_view.diff(&v);
+                                if let Some(f) = d.first() {
+                                    rep.violation(format!("late-delivery/{}", f.split(':').next().unwrap_or("?")), format!("{} header delivered as {} + {} bytes: first call {}, repeated call reports {}: {}", if sorenson { "sorenson" } else { "std" }, cut, bytes.len() - cut, first, f, hex(&bytes[..hdr_bytes])), coords());
+                                    break;
+                                } else if bits != nbits {
+                                    rep.violation("late-delivery/consumed-bits", format!("header delivered as {} + {} bytes: repeated call consumed {} bits, header has {}", cut, bytes.len() - cut, bits, nbits), coords());
+                                    break;
+                                }
+                                rep.count("late_delivery_headers_matched");
+                            }
+                            Ok(Some(_)) => rep.count("late_delivery_complete_prefix"),
+                            other => {
+                                rep.violation("late-delivery/repeated-call-failed", format!("{} header delivered as {} + {} bytes: first call {}, repeated call {:?}: {}", if sorenson { "sorenson" } else { "std" }, cut, bytes.len() - cut, first, other.map(|_| "none"), hex(&bytes[..hdr_bytes])), coords());
+                                break;
+                            }
                         }
                     }
                 }
